@@ -109,6 +109,42 @@ def features(rules):
     return sorted(f)
 
 
+def order_worker(item):
+    """Longer rule files (3-5 rules) whose merchants repeat non-contiguously and whose patterns overlap: the CSV loop and the
+    migrated file must still agree on every transaction (rule ORDER is part of the meaning of a first-match file)."""
+    seed, count = item
+    rnd = random.Random(seed)
+    txns = LD.txns()
+    tmpdir = tempfile.mkdtemp(prefix='c14o_', dir='/dev/shm' if os.path.isdir('/dev/shm') else None)
+    path = os.path.join(tmpdir, 'merchant_categories.csv')
+    fails, n = [], 0
+    try:
+        for _ in range(count):
+            rules = []
+            for i in range(rnd.randint(3, 5)):
+                rules.append({'pattern': LD.PATTERNS[rnd.choice(LD.CORE_PATTERNS + [1, 5, 6])], 'mods_text': LD.MODS[rnd.choice(LD.CORE_MODS)][0],
+                              'merchant': rnd.choice(['Shop A', 'Shop B']), 'cat': 'Cat %d' % i, 'sub': rnd.choice(['', 'Sub %d' % i]),
+                              'tags': rnd.choice([[], ['t%d' % i]]), 'relative': False})
+            text = csv_text(rules)
+            with open(path, 'w', newline='') as f:
+                f.write(text)
+            n += 1
+            a = classify_csv_side(path, txns)
+            b, content, b2 = classify_rules_side(path, txns)
+            if isinstance(b, str):
+                fails.append(({'site': 'migration', 'clause': 'unloadable', 'features': ['multi-rule']}, {'csv_text': text, 'error': b}, b))
+                continue
+            for t, x, y, z in zip(txns, a, b, b2):
+                if x != y or x != z:
+                    fails.append(({'site': 'migration', 'clause': 'classification-changes', 'features': ['multi-rule', 'repeated-merchant']},
+                                  {'csv_text': text, 'migrated': content, 'txn': dict(t, date=str(t['date'])), 'csv': x, 'migrated_file': y, 'csv_as_engine': z},
+                                  'after migration %s (amount %s) is classified %s (file) / %s (engine), the CSV rules gave %s' % (t['description'], t['amount'], y, z, x)))
+                    break
+    finally:
+        shutil.rmtree(tmpdir, ignore_errors=True)
+    return n, fails[:20]
+
+
 def replay_states(states, seed):
     txns = LD.txns()
     n, nontriv, fails = 0, 0, []
@@ -366,6 +402,12 @@ def run(ck):
     ck.trace(len(recs))
     # arbitrary patterns: match bits before / after conversion
     for done, fails in par.pmap(bit_worker, [(ck.seed * 31 + k, 150 if quick else 2500) for k in range(16)]):
+        ck.case(n=done)
+        ck.trace(done)
+        for sig, case, what in fails:
+            ck.violation(sig, case, what)
+    # longer files with repeated merchants and overlapping patterns
+    for done, fails in par.pmap(order_worker, [(ck.seed * 17 + k, 40 if quick else 600) for k in range(16)]):
         ck.case(n=done)
         ck.trace(done)
         for sig, case, what in fails:
